@@ -768,8 +768,19 @@ pub fn boundary(idx: usize, seed: u64, w: &mut dyn Write, thorough: bool) -> Opt
             g.step(&Op::R { sender: "bobby".into(), msg: RMsg::Upd { nft: va(&colls[0]), payout: None, bps: Some(200) } });
             g.probe(&Op::R { sender: "bobby".into(), msg: RMsg::Rem { nft: va(&colls[0]) } });
             g.step(&Op::ADV { d_ns: 6_000_000_000, d_height: 100 });
+            // cooldown over: every kind of change follows the CURRENT admin (bobby), not the instantiator / previous admin
+            for who in [DEPLOYER, "alice", "bobby"] {
+                g.probe(&Op::R { sender: who.into(), msg: RMsg::Rem { nft: va(&colls[0]) } });
+                g.probe(&Op::R { sender: who.into(), msg: RMsg::Upd { nft: va(&colls[0]), payout: Some(va("alice")), bps: Some(11) } });
+            }
+            // a collection whose admin was never its instantiator (instantiated by the deployer with admin alice)
+            for who in [DEPLOYER, "bobby", "alice"] {
+                g.probe(&Op::R { sender: who.into(), msg: RMsg::Rem { nft: va(&colls[1]) } });
+                g.probe(&Op::R { sender: who.into(), msg: RMsg::Upd { nft: va(&colls[1]), payout: None, bps: Some(12) } });
+            }
             g.step(&Op::AD { sender: "bobby".into(), contract: colls[0].clone(), new_admin: None });
             g.probe(&Op::R { sender: "bobby".into(), msg: RMsg::Rem { nft: va(&colls[0]) } });
+            g.probe(&Op::R { sender: DEPLOYER.into(), msg: RMsg::Rem { nft: va(&colls[0]) } });
             Some(g.stats)
         }
         15 | 16 | 17 | 18 => {
@@ -921,6 +932,49 @@ pub fn boundary(idx: usize, seed: u64, w: &mut dyn Write, thorough: bool) -> Opt
             g.step(&x(payer, vec![], MMsg::BL { listing_id: 1, bucket_id: 1 }));
             // the registry answers for all 25 at once, and for 26 names with an unregistered one
             g.battery_queries();
+            g.battery_drain();
+            Some(g.stats)
+        }
+        25 => {
+            // token ids are opaque strings: ids that differ only by surrounding white space or letter case are
+            // different tokens of different owners; every deposit path records and every payout returns exactly
+            // the token that was sent
+            let sim = Sim::new(Config { n_users: 3, n_cw20: 1, n_cw721: 2, nfts_per_user_per_collection: 1, n_hostile: 0, odd_token_ids: true, ..Config::default() });
+            let mut g = Gen::start(sim, "boundary:25 token-id twins", seed, w, thorough);
+            let colls = g.h.sim.cw721_addrs().to_vec();
+            let users: Vec<String> = g.users();
+            let mut id = 40u64;
+            for c in &colls {
+                // buckets: everybody parks every token they own, one bucket per token
+                let owned = g.h.sim.nft_owners(c);
+                let mut made: Vec<(String, u64)> = vec![];
+                for (tid, owner) in &owned {
+                    id += 1;
+                    g.step(&Op::T721 { coll: c.clone(), sender: owner.clone(), token_id: tid.clone(), inner: Inner::CB { id } });
+                    made.push((owner.clone(), id));
+                }
+                g.battery_queries();
+                for (owner, bid) in &made {
+                    g.step(&x(owner, vec![], MMsg::RB { id: *bid }));
+                }
+                // listings: one listing per user holding all their tokens of this collection (create + top-ups), then deleted
+                for u in &users {
+                    let mine: Vec<String> = g.h.sim.nft_owners(c).into_iter().filter(|(_, o)| o == u).map(|(t, _)| t).collect();
+                    if mine.is_empty() {
+                        continue;
+                    }
+                    id += 1;
+                    for (k, tid) in mine.iter().enumerate() {
+                        let inner = if k == 0 { Inner::CL { id, create: create(&[(5, "uatom")]) } } else { Inner::AL { id } };
+                        g.step(&Op::T721 { coll: c.clone(), sender: u.clone(), token_id: tid.clone(), inner });
+                    }
+                }
+                // a bucket topped up with a twin of a token another user's listing holds
+                g.battery_nonowner();
+                for (_, l) in g.h.sim.listings() {
+                    g.step(&x(l.creator.as_str(), vec![], MMsg::DL { id: l.id }));
+                }
+            }
             g.battery_drain();
             Some(g.stats)
         }
